@@ -1,56 +1,58 @@
 package main
 
-import "verif/instr"
+import (
+	"encoding/json"
+	"os"
+	"path/filepath"
+	"sort"
 
-// Spec describes how one property's check is bound to the repository.
+	"verif/instr"
+)
+
+// Spec describes how one property's check is bound to the repository.  It is
+// read from /verif/harness/<ID>/spec.json.
 type Spec struct {
-	ID                 string
-	Pkg                string       // repo-relative package that receives the harness test files
-	Harness            string       // directory under /verif/harness
-	Libs               []string     // shared harness library directories copied into the package
-	HideTests          []string     // extra package dirs whose own *_test.go files are hidden
-	Instr              []instr.Spec // packages rewritten for the controlled runtime
-	Test               string       // test function name
-	Shards             int
-	ThoroughShards     int
-	QuickBudget        int // seconds of internal budget per shard
-	ThoroughBudget     int
-	Grace              int // seconds added to the process timeout beyond the budget
-	GoMaxProcs         int
-	Env                []string
-	Level              string
-	Assumptions        []string
-	RaceBuild          bool
-	NoReplayValidation bool
-}
-
-func full(dir string) instr.Spec {
-	return instr.Spec{Dir: dir, Sync: true, Time: true, Chan: true, Race: true}
+	ID                 string       `json:"id"`
+	Pkg                string       `json:"pkg"`        // repo-relative package that receives the harness test files
+	Harness            string       `json:"harness"`    // directory under /verif/harness (default: ID)
+	Libs               []string     `json:"libs"`       // shared harness library directories (under harness/) copied into the package
+	HideTests          []string     `json:"hide_tests"` // extra package dirs whose own *_test.go files are hidden
+	Instr              []instr.Spec `json:"instr"`      // packages rewritten for the controlled runtime
+	Test               string       `json:"test"`       // test function name
+	Shards             int          `json:"shards"`
+	ThoroughShards     int          `json:"thorough_shards"`
+	QuickBudget        int          `json:"quick_budget_s"` // seconds of internal budget per shard
+	ThoroughBudget     int          `json:"thorough_budget_s"`
+	Grace              int          `json:"grace_s"` // seconds added to the process timeout beyond the budget
+	GoMaxProcs         int          `json:"gomaxprocs"`
+	Env                []string     `json:"env"`
+	Level              string       `json:"level"`
+	Assumptions        []string     `json:"assumptions"`
+	RaceBuild          bool         `json:"race_build"`
+	NoReplayValidation bool         `json:"no_replay_validation"`
+	KeepTests          bool         `json:"keep_tests"` // do not hide the package's own tests
 }
 
 func specs() []Spec {
-	return []Spec{
-		{
-			ID: "C20", Pkg: "pkg/cache", Harness: "C20", Test: "TestVerif_C20",
-			Instr:  []instr.Spec{full("pkg/cache")},
-			Shards: 16, QuickBudget: 60, ThoroughBudget: 600, Grace: 120, GoMaxProcs: 1, Env: []string{"GOGC=400"},
-			Level: "model_checking",
-			Assumptions: []string{
-				"the schedule explorer interleaves at synchronisation operations (locks, atomics, channel ops, spawn); unsynchronised accesses are covered by the happens-before race monitor over instrumented field/map accesses of pkg/cache",
-				"virtual clock replaces time.Now/NewTicker in pkg/cache; real-time behaviour of the Go runtime timers is not modelled",
-				"values are strings of length 1..9; estimateSize for other value kinds is not exercised",
-			},
-		},
-		{
-			ID: "C11", Pkg: "cmd/glyph", Harness: "C11", Test: "TestVerif_C11",
-			Instr:  []instr.Spec{full("pkg/server")},
-			Shards: 16, QuickBudget: 60, ThoroughBudget: 900, Grace: 120, GoMaxProcs: 1, Env: []string{"GOGC=400"},
-			Level: "model_checking",
-			Assumptions: []string{
-				"virtual clock replaces time.Now/NewTicker in pkg/server; the caller's clock of the property is that virtual clock",
-				"advances that span more than 3 cleanup ticks fire the first 2 and the last due tick only (the cleanup handler only deletes entries that are stale at the tick instant, which is monotone in time while no request intervenes)",
-				"client identity = RemoteAddr host; requests are built with httptest and handed to the middleware chain directly (no TCP)",
-			},
-		},
+	files, _ := filepath.Glob(filepath.Join(verifDir, "harness", "*", "spec.json"))
+	sort.Strings(files)
+	var out []Spec
+	for _, f := range files {
+		b, err := os.ReadFile(f)
+		if err != nil {
+			fatal("%v", err)
+		}
+		var s Spec
+		if err := json.Unmarshal(b, &s); err != nil {
+			fatal("%s: %v", f, err)
+		}
+		if s.Harness == "" {
+			s.Harness = s.ID
+		}
+		if s.Grace == 0 {
+			s.Grace = 120
+		}
+		out = append(out, s)
 	}
+	return out
 }
